@@ -7,6 +7,7 @@ package syncer
 import (
 	"context"
 	"errors"
+	"strings"
 	"time"
 
 	"go.sia.tech/core/consensus"
@@ -259,3 +260,83 @@ func VerifH_C11_psync_v1_deep() { VerifH_C11_psync_v1() }
 
 //verif:harness prop=C11 tier=thorough replay=interp go=sched preempt=3 timers=3 require=synced,failed,banned bounds="as VerifH_C11_psync_v2 with ≤3 delays, ticker firing ≤3 times"
 func VerifH_C11_psync_v2_deep() { VerifH_C11_psync_v2() }
+
+// VerifH_C11_psync_late_honest: two Byzantine peers take every copy of the
+// (single) block request and fail it; an honest peer connects while they hold
+// it. The honest peer's worker must get the failed request: the sync ends
+// with the honest chain. A request that is dropped instead leaves the honest
+// worker waiting for ever while the loop only ticks; that state (everything
+// blocked, timer budget used up) is shown to a watcher, which requires that no
+// worker is parked waiting for work while the sync has not returned.
+//
+//verif:harness prop=C11 tier=quick replay=interp go=sched preempt=1 timers=4 require=synced bounds="1..2 headers in one request; two peers that fail every request (transport error) and one honest peer that becomes known while both hold the request; ticker fires ≤4 times; ≤1 delay"
+func VerifH_C11_psync_late_honest() {
+	s, cm, _, p := newC11()
+	c11.validated = map[types.BlockID]bool{}
+	s.config.SendBlocksTimeout = time.Second
+	s.config.SendBlockTimeout = time.Second
+	cm.tip.Network.HardforkV2.RequireHeight = 1 << 30
+	p.synced = false
+	p.t.UniqueID = gateway.UniqueID{1}
+	s.peers[p.t.Addr] = p
+	q := &Peer{t: &gateway.Transport{Addr: "5.6.7.8:9981", UniqueID: gateway.UniqueID{2}}, ConnAddr: "5.6.7.8:5555"}
+	s.peers[q.t.Addr] = q
+	r := &Peer{t: &gateway.Transport{Addr: "9.9.9.9:9981", UniqueID: gateway.UniqueID{3}}, ConnAddr: "9.9.9.9:5555"}
+	n := vapi.Int("headers", 1, 2)
+	var blocks []types.Block
+	var headers []types.BlockHeader
+	prev := cm.tip.Index.ID
+	for k := 0; k < n; k++ {
+		b := types.Block{ParentID: prev, Nonce: uint64(100 + k), Timestamp: time.Unix(1700000000, 0)}
+		blocks = append(blocks, b)
+		headers = append(headers, b.Header())
+		prev = b.ID()
+	}
+	asked := map[*Peer]bool{}
+	honestKnown := false
+	c11.respondPeer = func(from *Peer, rq gateway.Object) error {
+		rr, ok := rq.(*gateway.RPCSendV2Blocks)
+		if !ok {
+			return errors.New("unexpected rpc")
+		}
+		if from == r {
+			rr.Blocks = append(rr.Blocks, blocks...)
+			return nil
+		}
+		asked[from] = true
+		if asked[p] && asked[q] && !honestKnown {
+			// both copies of the request are out: now the honest peer connects
+			honestKnown = true
+			s.mu.Lock()
+			s.peers[r.t.Addr] = r
+			s.mu.Unlock()
+		}
+		return errors.New("stream reset")
+	}
+	returned := false
+	go func() {
+		vapi.WaitStuck()
+		if !returned && honestKnown {
+			// nothing can move any more except the ticker: a worker parked on
+			// the request channel now will never be served
+			// (the one goroutine that legitimately waits on a channel for the
+			// whole sync is the finisher, which receives completed batches)
+			vapi.Note("stuck", vapi.Blocked())
+			vapi.Assert("psync.failed-request-reaches-the-idle-honest-worker", strings.Count(vapi.Blocked(), ": chan receive]") <= 1)
+		}
+	}()
+	err := s.parallelSync(context.Background(), cm.tip, headers)
+	returned = true
+	if err == nil {
+		vapi.Reach("synced")
+		got := 0
+		for _, batch := range cm.added {
+			got += len(batch)
+		}
+		vapi.Assert("psync.success-means-every-announced-block-added", got == n)
+	} else {
+		// both Byzantine peers failed before the honest one was known to the
+		// loop and the tick noticed "all peers failed": allowed
+		vapi.Reach("failed")
+	}
+}
